@@ -37,6 +37,9 @@ let spec input obs_s =
     let verdict = ref "OK" in
     let fail c d = if !verdict = "OK" then verdict := "FAIL " ^ c ^ " " ^ d in
     let n_contra = ref 0 and n_forb = ref 0 and n_adv = ref 0 and n_adopt = ref 0 in
+    let caveat = ref false and n_conv = ref 0 in
+    let stored_final = Hashtbl.create 64 in
+    Stdlib.List.iter (fun (i, _, _, _, _) -> Hashtbl.replace stored_final i ()) o.rows;
     (* R1, R2 *)
     let rows = orows o in
     if not (SyncSpec.spec_forbidden_absent sc.hist.forbidden rows) then fail "forbidden-stored" "a forbidden hash is in the headers table";
@@ -164,6 +167,9 @@ let spec input obs_s =
           Stdlib.List.iter (fun (q, _, stop) ->
               if q = p && not (SyncSpec.spec_stop cps (z_of_int (next_of e.state)) (n_of_int stop)) then
                 fail "wrong-stop-hash" (Printf.sprintf "%s: stop %d while next checkpoint height is %d" e.label stop (next_of e.state))) gs;
+          (* the caveat of the statement: a reply that was ingested, brought something new, and left the tip where it was *)
+          if Stdlib.List.exists (fun i -> fresh i && Hashtbl.mem stored_final i) e.batch && not (has_prefix_eff "X" p e.effs)
+             && tip_of e.state = tip_of !prev_state then caveat := true;
           if active then Stdlib.List.iter (fun i -> Hashtbl.replace connected i ()) ingested;
           Stdlib.List.iter (fun i -> Hashtbl.replace known i ()) e.batch
         end;
@@ -174,6 +180,37 @@ let spec input obs_s =
         if Stdlib.List.mem "P" e.effs then fail "panic" e.label;
         Hashtbl.replace peer_state p e.state;
         prev_state := e.state) step) o.steps;
-    if !verdict = "OK" then Printf.sprintf "OK forbidden-deliveries=%d contradictions=%d advances=%d adoptions-refused=%d" !n_forb !n_contra !n_adv !n_adopt else !verdict
+    (* ---- last clause of C07: after either event the service still converges on an honest peer's chain.
+       Evaluated for the default engine (the experimental one has no second peer to turn to by design) on scripts that end with
+       a run to quiescence, when some sender was dropped for a forbidden or checkpoint-contradicting header and an honest peer
+       (its chain holds no forbidden and no checkpoint-contradicting header) is connected and neither closed nor stalled by the
+       script: every header of the honest peers' best chain is stored and the tip carries at least that work
+       (SyncSpec.spec_converged); the statement's own caveat (an ingested reply without any longest-chain header ends the
+       conversation) exempts, as in C06 ---- *)
+    let ends_with_run = (match Stdlib.List.rev sc.cmds with c :: _ -> c.[0] = 'R' | [] -> false) in
+    if !verdict = "OK" && (not is_x) && ends_with_run && (!n_forb > 0 || !n_contra > 0) then begin
+      let rec take n l = if n <= 0 then [] else match l with [] -> [] | x :: r -> x :: take (n - 1) r in
+      let rec drop n l = if n <= 0 then l else match l with [] -> [] | _ :: r -> drop (n - 1) r in
+      let st = Stdlib.List.map (fun n -> (n.np, (ref n.nchain, ref n.nreserve, ref false, ref false))) sc.nodes in
+      Stdlib.List.iter (fun c ->
+          match parse_cmd c with
+          | SyncSys.CConnect q -> (try let (_, _, conn, _) = Stdlib.List.assoc (int_of_n q) st in conn := true with Not_found -> ())
+          | SyncSys.CClose q | SyncSys.CStall q -> (try let (_, _, _, gone) = Stdlib.List.assoc (int_of_n q) st in gone := true with Not_found -> ())
+          | SyncSys.CAnnounce (q, k, _) ->
+            (try let (ch, rs, _, _) = Stdlib.List.assoc (int_of_n q) st in
+               let k = int_of_nat k in ch := !ch @ take k !rs; rs := drop k !rs with Not_found -> ())
+          | _ -> ()) sc.cmds;
+      let bad_anywhere i = is_forb i || (match th i with Some h -> (match cp_id_at h with Some c -> c <> i | None -> false) | None -> true) in
+      let honest = Stdlib.List.filter (fun (_, (ch, _, conn, gone)) -> !conn && not !gone && !ch <> [] && not (Stdlib.List.exists bad_anywhere !ch)) st in
+      if honest <> [] && not !caveat then begin
+        incr n_conv;
+        let offers = Stdlib.List.map (fun (_, (ch, _, _, _)) -> Stdlib.List.map (src_of u) !ch) honest in
+        let gw = Work.calc_work sc.hist.gpl.Store.p_bits in
+        if not (SyncSpec.spec_converged gw gw offers rows (n_of_int o.tip)) then
+          fail "not-converged-after-containment" (Printf.sprintf "tip=%d honest peers=%s" o.tip
+                                                    (Stdlib.String.concat "," (Stdlib.List.map (fun (q, _) -> string_of_int q) honest)))
+      end
+    end;
+    if !verdict = "OK" then Printf.sprintf "OK forbidden-deliveries=%d contradictions=%d advances=%d adoptions-refused=%d converged-after-containment=%d" !n_forb !n_contra !n_adv !n_adopt !n_conv else !verdict
 
 let () = run_driver model spec
